@@ -14,6 +14,8 @@ pub struct Counters {
     pub creates: Cell<u64>,
     pub live: Cell<u64>,
     pub peak: Cell<u64>,
+    /// the call of the creator (counted from 0, failed calls included) that fails, once
+    pub fail_at: Cell<Option<u64>>,
 }
 
 /// an in-memory chunk that counts how many chunk objects exist at once
@@ -44,7 +46,11 @@ impl ChunkCreator for CountingCreator {
     type Error = io::Error;
     fn create(&self) -> Result<CountedChunk, io::Error> {
         let c = &self.ctr;
-        c.creates.set(c.creates.get() + 1);
+        let n = c.creates.get();
+        c.creates.set(n + 1);
+        if c.fail_at.get() == Some(n) {
+            return Err(io::Error::new(io::ErrorKind::Other, "injected fault"));
+        }
         c.live.set(c.live.get() + 1);
         c.peak.set(c.peak.get().max(c.live.get()));
         Ok(CountedChunk { inner: Cursor::new(Vec::new()), ctr: self.ctr.clone() })
@@ -101,7 +107,8 @@ pub fn gen_cfg_sorter(rng: &mut Rng) -> SortCfg {
     SortCfg {
         threshold,
         realloc,
-        max_chunks: *rng.pick(&[0usize, 1, 1, 2, 3, 5]),
+        // now and then the type's limits: "never merge the chunks"
+        max_chunks: *rng.pick(&[0usize, 1, 1, 2, 3, 5, 1, 2, 3, 5, 1, 2, usize::MAX, usize::MAX / 2 + 1]),
         init_cap: init_cap.max(16),
         stable: rng.chance(2, 3),
         parallel: rng.chance(1, 4),
@@ -141,6 +148,10 @@ pub fn generate<W: Write>(c: &mut Cases<W>, rng: &mut Rng, thorough: bool, which
             _ => {}
         }
         emit_sorter_case(c, which, &cfg, &ins);
+        if which == "C08" && i % 3 == 0 {
+            // the same inserts with a chunk creator that fails one of its first calls, the caller going on
+            emit_sorter_case_cr(c, which, &cfg, &ins, Some(rng.below(5)));
+        }
     }
     // small-scope exhaustive: every insert sequence of length 6 (thorough: 8) over two keys, values tagged
     // with their position, under a grid of tiny budgets x reallocation x max chunks (stable, sequential)
@@ -219,6 +230,11 @@ pub fn generate<W: Write>(c: &mut Cases<W>, rng: &mut Rng, thorough: bool, which
 }
 
 fn emit_sorter_case<W: Write>(c: &mut Cases<W>, which: &str, cfg: &SortCfg, ins: &Vec<(Vec<u8>, Vec<u8>)>) {
+    emit_sorter_case_cr(c, which, cfg, ins, None)
+}
+
+/// `crfail`: the chunk creator fails that call (once); the caller goes on inserting after the error
+fn emit_sorter_case_cr<W: Write>(c: &mut Cases<W>, which: &str, cfg: &SortCfg, ins: &Vec<(Vec<u8>, Vec<u8>)>, crfail: Option<u64>) {
     let quarter = cfg.threshold / 4;
     let all_small = ins.iter().all(|(k, v)| k.len() + v.len() <= quarter);
     c.begin("sorter");
@@ -228,12 +244,17 @@ fn emit_sorter_case<W: Write>(c: &mut Cases<W>, which: &str, cfg: &SortCfg, ins:
         cfg.threshold, cfg.realloc as u8, cfg.max_chunks, cfg.init_cap, cfg.stable as u8, cfg.parallel as u8
     ));
     c.line(&format!("small {}", all_small as u8));
+    if let Some(j) = crfail {
+        c.line(&format!("crfail {}", j));
+        c.bump("transient_creator_failure", 1);
+    }
     for (k, v) in ins.iter() {
         c.line(&format!("input {} {}", hex(k), hex(v)));
     }
     c.checkpoint();
     // run 1: per-insert state, then stream
     let ctr = Rc::new(Counters::default());
+    ctr.fail_at.set(crfail);
     let mf = LoggingConcat { calls: RefCell::new(Vec::new()), fail_at: None, sort: !cfg.stable };
     let mm0 = alloc_track::MISMATCHES.load(Relaxed);
     let mut sorter = build(&cfg, mf, ctr.clone());
@@ -247,6 +268,11 @@ fn emit_sorter_case<W: Write>(c: &mut Cases<W>, which: &str, cfg: &SortCfg, ins:
             Ok(Ok(())) => {
                 let (l, u, nb, ch) = sorter.verif_state();
                 c.line(&format!("ins {} {} = {} {} {} {}", hex(k), hex(v), l, u, nb, ch));
+            }
+            Ok(Err(e)) if crfail.is_some() && err_class(&e) == "io7" => {
+                // the creator failed this once: the caller goes on; the state the sorter is left in is recorded
+                let (l, u, nb, ch) = sorter.verif_state();
+                c.line(&format!("ins {} {} = E io7 {} {} {} {}", hex(k), hex(v), l, u, nb, ch));
             }
             Ok(Err(e)) => { c.line(&format!("ins {} {} = E {}", hex(k), hex(v), err_class(&e))); dead = true; }
             Err(_) => { c.line(&format!("ins {} {} = P", hex(k), hex(v))); dead = true; }
@@ -269,6 +295,12 @@ fn emit_sorter_case<W: Write>(c: &mut Cases<W>, which: &str, cfg: &SortCfg, ins:
         c.line(&format!("creates {}", ctr.creates.get()));
         c.line(&format!("peak {}", ctr.peak.get()));
         c.line(&format!("leaked {}", ctr.live.get()));
+        if crfail.is_some() {
+            c.line(&format!("layout_mismatch {}", alloc_track::MISMATCHES.load(Relaxed) - mm0));
+            c.bump("inserts.total", ins.len() as u64);
+            c.end();
+            return;
+        }
         // run 2: into a writer
         let ctr2 = Rc::new(Counters::default());
         let mf2 = LoggingConcat { calls: RefCell::new(Vec::new()), fail_at: None, sort: !cfg.stable };
